@@ -9,6 +9,7 @@ first = {  # verdict of the check as it stood when the seed arrived (before any 
  'C20-a': 'missed', 'C22-a': 'missed', 'C27-a': 'missed (caught by the C03 check only)',
  'C10-b': 'missed at the quick tier (thorough caught it)', 'C24-b': 'missed', 'C32-b': 'missed',
  'C07-b': 'missed', 'C12-b': 'missed', 'C13-b': 'missed', 'C29-b': 'missed',
+ 'C04-b': 'missed', 'C05-b': 'missed', 'C23-b': 'missed', 'C27-b': 'missed',
 }
 rows = []
 for seed in sorted(os.listdir(f'{root}/seeded')):
